@@ -72,11 +72,15 @@ def member_xml(m):
             inner += '<simplesect kind="return"><para>%s</para></simplesect>' % xtext(m['ret'])
         det += '<para>%s</para>' % inner
     detailed = '<detaileddescription>%s</detaileddescription>' % det if (m.get('detail') is not None or m.get('pdocs') or m.get('ret')) else ''
-    return '<memberdef kind="function" id="x"><type>int</type><definition>int %s</definition><argsstring>%s</argsstring>' \
-           '<name>%s</name>%s%s%s</memberdef>' % (m['name'], xtext(argsstring), m['name'], ps, brief, detailed)
+    tpl = ''
+    if m.get('tparams'):
+        # a C++ member template: Doxygen lists its template parameters as <param> elements of a <templateparamlist>
+        tpl = '<templateparamlist>%s</templateparamlist>' % ''.join('<param><type>class</type><declname>%s</declname></param>' % t for t in m['tparams'])
+    return '<memberdef kind="function" id="x">%s<type>int</type><definition>int %s</definition><argsstring>%s</argsstring>' \
+           '<name>%s</name>%s%s%s</memberdef>' % (tpl, m['name'], xtext(argsstring), m['name'], ps, brief, detailed)
 
 
-def write_xml(folder, classes, index=True, broken=(), missing_file=(), structs=()):
+def write_xml(folder, classes, index=True, broken=(), missing_file=(), structs=(), latin1=(), damaged=()):
     """classes: {cpp name: [members]}; names in `structs` are emitted as Doxygen does for a C++ struct"""
     os.makedirs(folder, exist_ok=True)
     idx = '<?xml version="1.0" encoding="UTF-8"?>\n<doxygenindex>'
@@ -98,6 +102,16 @@ def write_xml(folder, classes, index=True, broken=(), missing_file=(), structs=(
                   '<sectiondef kind="public-func"></sectiondef>')
         if cpp in broken:
             body = body[:len(body) // 2]
+        if cpp in latin1:
+            # a legal non-UTF-8 file: the encoding is declared in the XML declaration
+            with open(os.path.join(folder, refid + '.xml'), 'wb') as f:
+                f.write(body.replace('encoding="UTF-8"', 'encoding="ISO-8859-1"').encode('latin-1'))
+            continue
+        if cpp in damaged:
+            with open(os.path.join(folder, refid + '.xml'), 'wb') as f:
+                b = body.encode('utf-8')
+                f.write(b[:len(b) // 2] + b'\xff' + b[len(b) // 2:])
+            continue
         with open(os.path.join(folder, refid + '.xml'), 'w', encoding='utf-8') as f:
             f.write(body)
     idx += '</doxygenindex>'
@@ -335,6 +349,11 @@ def check_matching(case):
             ('addw', [('double', 'weight', None), ('string', 'label', '""')], 'full'),
             ('addw', [('string', 'label', None)], 'full'),
             ('solve', [('double', 'x', None), ('int', 'max_iterations', '10'), ('double', 'relax', '0.5')], 'full-required-only'),
+            ('tput', [('double', 'value', None)], 'full'),             # documented as a C++ member template
+            ('alta', [('int', 'f', None)], 'full'),                    # two overload sets told apart by order only, declared alternately
+            ('altb', [('int', 'o', None)], 'full'),
+            ('alta', [('double', 'f', None)], 'full'),
+            ('altb', [('double', 'o', None)], 'full'),
             ('briefonly', [('int', 'a', None)], 'brief'),
             ('nodoc', [('int', 'a', None)], 'none'),
             ('notinxml', [('int', 'a', None)], 'absent'),
@@ -356,6 +375,8 @@ def check_matching(case):
                 members.append(D.method(single(I), name, args))
             if kind != 'absent':
                 m = {'name': name, 'params': xml_params}
+                if name == 'tput':
+                    m['tparams'] = ['T']
                 if (name, len(params)) == ('ov', 0) or name == 'swap' and params[0][1] == 'value':
                     m['sect'] = 'user-defined'      # overloads told apart by their parameter names, in another section
                 if kind == 'full':
@@ -381,14 +402,17 @@ def check_matching(case):
                 dict({'name': 'same', 'params': [('int', 'v', None)]}, **doc('K81K')),
                 dict({'name': 'same', 'params': [('double', 'v', None)]}, **doc('K82K'))]
         sexpect = [('plain', ['a'], 'K80K'), ('same', ['v'], 'K81K'), ('same', ['v'], 'K82K')]
-        mod = [D.ns('gt', [D.cls('Foo', members), D.cls('Sfoo', smembers), D.cls('NotIndexed', [D.method(single(I), 'plain', [arg(I, 'a')])]),
+        lat = [D.method(single(I), 'plain', [arg(I, 'a')])]
+        mod = [D.ns('gt', [D.cls('Foo', members), D.cls('Sfoo', smembers), D.cls('Latin', lat), D.cls('Damaged', lat), D.cls('NotIndexed', [D.method(single(I), 'plain', [arg(I, 'a')])]),
                            D.cls('NoFile', [D.method(single(I), 'plain', [arg(I, 'a')])]),
                            D.cls('Broken', [D.method(single(I), 'plain', [arg(I, 'a')])])])]
         text = D.render(mod)
         xml = os.path.join(wd, 'xml')
         write_xml(xml, {'outer::gt::NotIndexed': [dict({'name': 'plain', 'params': [('int', 'a', None)]}, **doc('K70K'))],
-                        'gt::Foo': xmlm, 'gt::Sfoo': sxml, 'gt::NoFile': [], 'gt::Broken': [{'name': 'plain', 'params': [('int', 'a', None)], 'brief': 'BRIEF-X'}]},
-                  broken=('gt::Broken',), missing_file=('gt::NoFile',), structs=('gt::Sfoo',))
+                        'gt::Foo': xmlm, 'gt::Sfoo': sxml, 'gt::NoFile': [],
+                        'gt::Latin': [dict({'name': 'plain', 'params': [('int', 'a', None)]}, **doc('K60K caf\xe9'))],
+                        'gt::Damaged': [dict({'name': 'plain', 'params': [('int', 'a', None)]}, **doc('K61K'))], 'gt::Broken': [{'name': 'plain', 'params': [('int', 'a', None)], 'brief': 'BRIEF-X'}]},
+                  broken=('gt::Broken',), missing_file=('gt::NoFile',), structs=('gt::Sfoo',), latin1=('gt::Latin',), damaged=('gt::Damaged',))
         variants = {'full': xml}
         noidx = os.path.join(wd, 'noindex')
         write_xml(noidx, {'gt::Foo': xmlm}, index=False)
@@ -435,8 +459,13 @@ def check_matching(case):
                     if set(re.findall(r'K\d+K', lit if isinstance(lit, str) else '')) != {mark}:
                         viol.append({'sig': 'C17|matching|wrong-member-doc|struct-%s' % py,
                                      'msg': 'gt::Sfoo (a Doxygen struct compound) %s(%s) should carry the documentation %s, literal is "%s"' % (py, names, mark, lit)})
+            if vname == 'full':
+                latlit = [lit for cpp, py, names, lit in lits if cpp == 'gt::Latin']
+                if len(latlit) != 1 or not isinstance(latlit[0], str) or 'K60K' not in latlit[0]:
+                    viol.append({'sig': 'C17|matching|wrong-member-doc|latin1-encoded-xml',
+                                 'msg': 'gt::Latin.plain (its XML file is ISO-8859-1, as declared in the file) should carry K60K, literal is %r' % (latlit,)})
             for cpp, py, names, lit in lits:
-                if cpp not in ('gt::Foo', 'gt::Sfoo' if vname == 'full' else 'gt::Foo') and lit not in ('', None):
+                if cpp not in ('gt::Foo', 'gt::Sfoo' if vname == 'full' else 'gt::Foo', 'gt::Latin' if vname == 'full' else 'gt::Foo') and lit not in ('', None):
                     viol.append({'sig': 'C17|matching|docstring-for-undocumented-class|%s' % cpp, 'msg': '%s.%s has "%s"' % (cpp, py, lit)})
             if strip_literals(out) != gen.pybind(text):
                 viol.append({'sig': 'C17|matching|output-differs-beyond-literals|%s' % vname, 'msg': 'output changed beyond the literals'})
